@@ -129,6 +129,33 @@ def _body(case, mix, pv, comp, t, perm, prec, mdl, w, classes):
     require(relerr(dc.get_psi[0], (j[0] + j[1]) * (sf_ref - 1.0)) <= 1e-9 + 1e-12 * abs(sf_ref) / max(abs(sf_ref - 1), 1e-300),
             "curve PSI %r != total flux x (separation factor - 1) = %r", float(dc.get_psi[0]), (j[0] + j[1]) * (sf_ref - 1.0))
 
+    # "the selected activity model is honoured": the answers do not depend on the parameters of the model that was NOT selected
+    import attr
+
+    other_field = "uniquac_params" if mdl == "NRTL" else "nrtl_params"
+    other_params = getattr(mix, other_field)
+    if other_params is not None:
+        if mdl == "NRTL":
+            moved = attr.evolve(other_params, alpha_12=other_params.alpha_12 * 1.37 + 11.0, beta_21=other_params.beta_21 * 0.61 - 3.0)
+        else:
+            moved = attr.evolve(other_params, g12=other_params.g12 * 1.37 + 150.0, g21=other_params.g21 * 0.61 - 90.0)
+        mix2 = attr.evolve(mix, **{other_field: moved})
+        pv2 = build.Pervaporation(membrane=pv.membrane, mixture=mix2)
+        with Trace(pv2, cap=60000, keep=False):
+            what2 = "with other %s of the mixture (model %s selected)" % (other_field, mdl)
+            r2 = _solver(pv2, case, comp, t)
+            require(not is_raised(r2) and float(r2[0]) == j[0] and float(r2[1]) == j[1],
+                    "flux calculation %s gives %r, before %r", what2, r2, j)
+            pc2 = call(pv2.calculate_permeate_composition, t, comp, prec, perm["T"], perm["p"], mdl)
+            require(not is_raised(pc2) and pc2.p == pc.p, "calculate_permeate_composition %s gives %r, before %r", what2, pc2, pc)
+            sf2 = call(pv2.calculate_separation_factor, t, comp, perm["T"], perm["p"], prec, mdl)
+            require(not is_raised(sf2) and float(sf2) == float(sf), "calculate_separation_factor %s gives %r, before %r", what2, sf2, sf)
+            dc2 = call(pv2.ideal_diffusion_curve, t, [comp], perm["T"], perm["p"], prec, mdl)
+            require(not is_raised(dc2) and all(float(dc2.partial_fluxes[0][i]) == float(dc.partial_fluxes[0][i]) for i in (0, 1)),
+                    "ideal_diffusion_curve %s gives fluxes %r, before %r", what2,
+                    None if is_raised(dc2) else dc2.partial_fluxes[0], dc.partial_fluxes[0])
+        classes.append("other-model-parameters-moved")
+
     # ideal process models
     dt = case["removal"] * case["amount"] / (case["area"] * (j[0] + j[1]))
     cond = {"area": case["area"], "T": t, "amount": case["amount"], "x": case["x"], "basis": case["basis"],
